@@ -169,7 +169,7 @@ class Cleaner:
                 'rangeAttributeID': ('dgmattribs', 'attributeID'),
                 'falloffAttributeID': ('dgmattribs', 'attributeID'),
                 'fittingUsageChanceAttributeID': ('dgmattribs', 'attributeID'),
-                'resistanceID': ('dgmattribs', 'attributeID')},
+                'resistanceAttributeID': ('dgmattribs', 'attributeID')},
             'dgmtypeattribs': {
                 'typeID': ('evetypes', 'typeID'),
                 'attributeID': ('dgmattribs', 'attributeID')},
